@@ -176,6 +176,19 @@ impl Stitch {
                     match Band::open(&self.archive, *band_id).await {
                         Ok(band) => match band.index().try_iter_available_hunks().await {
                             Ok(mut index_hunks) => {
+                                // A finished band says how many hunks it has: if some are gone, the
+                                // entries in them will be missing from this listing.
+                                if let Ok(info) = band.get_info().await {
+                                    let present = index_hunks.hunk_count();
+                                    if info.index_hunk_count.is_some_and(|n| n != present as u64) {
+                                        self.monitor.error(Error::InvalidMetadata {
+                                            details: format!(
+                                                "Band {band_id} has {present} index hunks but should have {}",
+                                                info.index_hunk_count.unwrap_or_default()
+                                            ),
+                                        });
+                                    }
+                                }
                                 if let Some(last) = &self.last_apath {
                                     index_hunks = index_hunks.advance_to_after(last)
                                 }
